@@ -105,8 +105,9 @@ func drawSigner(t *rapid.T, group string, quorumSize, maxECDSA int) signerChoice
 // from different epochs) and judges the result against the ORIGINAL public key pk, with the
 // library verifier and the independent one. refShard supplies the public material for the
 // aggregator / library verifier (its public key is asserted by the caller to be pk).
-func trySign(c signerChoice, quorum []proto.ID, shards map[proto.ID]any, refShard any, pk, msg []byte, seed uint64, idle time.Duration, mixed bool) (out signOutcome, panicked string) {
-	ctxs, err := proto.Contexts(quorum, seed, "sign")
+func trySign(c signerChoice, quorum []proto.ID, shards map[proto.ID]any, refShard any, pk, msg []byte, seed uint64, runNo int, idle time.Duration, mixed bool) (out signOutcome, panicked string) {
+	label := fmt.Sprintf("sign#%d", runNo) // fresh random tapes for every run of a history
+	ctxs, err := proto.Contexts(quorum, seed, label)
 	if err != nil {
 		return signOutcome{stage: "constructor", err: "contexts: " + err.Error()}, ""
 	}
@@ -114,9 +115,9 @@ func trySign(c signerChoice, quorum []proto.ID, shards map[proto.ID]any, refShar
 	for _, id := range quorum {
 		var r network.Runner[any]
 		if c.schnorr != nil {
-			r, err = c.schnorr.Runner(ctxs[id], shards[id], fiatshamir.Name, msg, proto.PartyPRNG(seed, "l22", id))
+			r, err = c.schnorr.Runner(ctxs[id], shards[id], fiatshamir.Name, msg, proto.PartyPRNG(seed, label+"/l22", id))
 		} else {
-			r, err = c.ecdsa.DKLS23Runner("softspoken", ctxs[id], shards[id], msg, proto.PartyPRNG(seed, "dkls", id))
+			r, err = c.ecdsa.DKLS23Runner("softspoken", ctxs[id], shards[id], msg, proto.PartyPRNG(seed, label+"/dkls", id))
 		}
 		if err != nil {
 			return signOutcome{stage: "constructor", err: fmt.Sprintf("party %d: %v", id, err)}, ""
